@@ -1,7 +1,7 @@
 (** C16 - A program split into modules computes what its inlined form computes. (loader part)
     Model: Cli/Modules.v (mirrors Loader::load / Loader::find of jaq-core/src/load/mod.rs over an abstract file system). *)
 From Coq Require Import List Arith.
-From JaqV Require Import Cli.Modules Proofs.ModuleLaws.
+From JaqV Require Import Cli.Modules Proofs.ModuleLaws Proofs.ModuleOrder.
 Import ListNotations.
 
 (** a module reached by several routes (diamonds, repeated directives) is loaded once *)
@@ -22,6 +22,41 @@ Theorem cycle_reported : forall fs f ds fuel, deps_of fs f = Some ds -> In f ds 
   end.
 Proof. exact self_import_is_circular. Qed.
 Print Assumptions cycle_reported.
+
+(** a module is loaded (and so its definitions are compiled) only after every file it includes or imports *)
+Theorem deps_loaded_first : forall fs main_deps mods, load fs main_deps = inl mods ->
+  forall j m, nth_error mods j = Some m -> m <> prelude_file ->
+  forall ds d, deps_of fs m = Some ds -> In d ds -> exists i, i < j /\ nth_error mods i = Some d.
+Proof. exact ModuleOrder.deps_loaded_first. Qed.
+Print Assumptions deps_loaded_first.
+
+(** every file that a chain of directives reaches from the main program is loaded *)
+Theorem reachable_loaded : forall fs main_deps mods, load fs main_deps = inl mods ->
+  (forall ds, deps_of fs prelude_file = Some ds -> ds = []) ->
+  forall m, reach fs main_deps m -> In m mods.
+Proof. exact ModuleOrder.reachable_loaded. Qed.
+Print Assumptions reachable_loaded.
+
+(** circular imports of any length are reported as errors: a reached file that names itself through a chain of
+    directives makes the load fail *)
+Theorem cyclic_fails : forall fs main_deps f,
+  (forall ds, deps_of fs prelude_file = Some ds -> ds = []) ->
+  reach fs main_deps f -> chain fs f f -> forall mods, load fs main_deps <> inl mods.
+Proof. exact ModuleOrder.cyclic_fails. Qed.
+Print Assumptions cyclic_fails.
+
+(** ... instead of looping: the fuel of the model is never what stops the loader *)
+Theorem load_fuel_suffices : forall fs main_deps, load fs main_deps <> inr Fuel.
+Proof. exact ModuleOrder.load_fuel_suffices. Qed.
+Print Assumptions load_fuel_suffices.
+
+(** every acyclic set of modules whose files exist loads *)
+Theorem acyclic_loads : forall fs main_deps (rank : file -> nat),
+  (forall f ds d, deps_of fs f = Some ds -> In d ds -> rank d < rank f) ->
+  (forall f, reach fs main_deps f -> deps_of fs f <> None) ->
+  exists mods, load fs main_deps = inl mods.
+Proof. exact ModuleOrder.acyclic_loads. Qed.
+Print Assumptions acyclic_loads.
 
 Example diamond : load [(1, [2; 3]); (2, [4]); (3, [4]); (4, [])] [1] = inl [0; 4; 2; 3; 1].
 Proof. reflexivity. Qed.
